@@ -3,6 +3,7 @@ import FxpVerif.Model.Arith
 import FxpVerif.Model.Convert
 import FxpVerif.Model.Compare
 import FxpVerif.Model.Dtype
+import FxpVerif.Model.Strings
 /-! Line-protocol helpers for the correspondence driver (core Lean only). -/
 namespace Fxp.Proto
 
